@@ -21,7 +21,7 @@ try:
     env = dict(os.environ, VERIF_REPO=d, VERIF_NO_EVIDENCE='1')
     for p in props:
         r = subprocess.run([os.path.join(here, 'check'), p, '--tier', tier], capture_output=True, text=True, cwd=here, env=env)
-        lines = [l for l in r.stdout.splitlines() if l.startswith(('VIOLATION', 'UNDECIDED', 'OK', 'KNOWN', '  failed'))]
+        lines = [l for l in r.stdout.splitlines() if l.startswith(('VIOLATION', 'UNDECIDED', 'PARTIAL', 'OK', 'KNOWN', '  failed'))]
         print('%s %s exit=%d' % (os.path.relpath(patch, '/tmp/mut'), p, r.returncode), flush=True)
         for l in lines[:8]:
             print('   ', l[:260], flush=True)
